@@ -263,9 +263,12 @@ class FuncEvaluator:
 
 class KernelEvaluator(FuncEvaluator, XCEvalSerializable):
     def __init__(self, kernel, X1ctrl, alpha):
-        self.X1ctrl = X1ctrl
+        # store contiguous copies (as RBFEvaluator does): a strided view evaluates
+        # through other NumPy code paths than the contiguous array a saved file
+        # reloads to, so a reloaded model was not bit-identical to the original
+        self.X1ctrl = np.ascontiguousarray(X1ctrl)
         self.kernel = kernel
-        self.alpha = alpha
+        self.alpha = np.ascontiguousarray(alpha)
 
     def __call__(self, X1, res=None, dres=None):
         if res is None:
